@@ -343,7 +343,7 @@ func init() {
 	register(&core.Property{
 		ID:    "C02",
 		Level: "exploration",
-		Rule: "hostile programs built from a token table (every placement of \", \\\", \\\\, \\\\\", \\x5c, \\x5c\", raw and escaped control bytes, raw and escaped non-ASCII runes, \\s-containing classes with neighbours, ^ $ . next to each other and next to group boundaries; 1..4 entries of 1..6 tokens, optional flags, prefix/suffix, block with markers) plus the escapes / white-space-class / flags / affix / cmdline lanes of the C01 generator are compiled by the built CLI; 51 pinned programs whose prefix / suffix lines make the joined text malformed around well-formed entries, 15 with flag groups that cover the whole expression beside a flags line with the other letter and with named capture groups; one case in six also runs `regex update` and scans the operand inside its SecRule line. " +
+		Rule: "hostile programs built from a token table (every placement of \", \\\", \\\\, \\\\\", \\x5c, \\x5c\", raw and escaped control bytes, raw and escaped non-ASCII runes, \\s-containing classes with neighbours, ^ $ . next to each other and next to group boundaries; 1..4 entries of 1..6 tokens, optional flags, prefix/suffix, block with markers) plus the escapes / white-space-class / flags / affix / cmdline lanes of the C01 generator are compiled by the built CLI; 51 pinned programs whose prefix / suffix lines make the joined text malformed around well-formed entries, 24 with flag groups that cover the whole expression beside a flags line with the other letter, with named capture groups, and with an escaped look-alike of a flag group in front of or at a fixed distance from a real one; one case in six also runs `regex update` and scans the operand inside its SecRule line. " +
 			"Oracle: a lexical scanner plus regexp/syntax: only bytes 0x20..0x7e; every quote escaped; no two-byte \\\\; \\s always followed by \\x0b and no bracket expression that lists tab, newline, form feed, carriage return and space without the vertical tab; no '(?' other than '(?:' / '(?P<' except one leading group with sorted unique letters from {i,s}; parses as RE2; in `SecRule ARGS \"@rx <out>\" \\` the first unescaped quote is the closing one. Non-trivial = output contains a quote, a backslash or a group. Programs that do not compile are outside the quantifier (skipped).",
 		Cases: func(env *core.Env, rng *rand.Rand) []core.Case {
 			n := env.N(3000, 40000)
@@ -393,6 +393,7 @@ func init() {
 			// flag groups that cover the whole expression next to a flags line with the other letter, and named capture
 			// groups (the only place where an upper-case letter is syntax) with and without the i flag
 			for _, m := range []string{"##!+ s\n(?i)ab|c.\n", "##!+ s\n##!^ (?i)\nfoo\nbar\n", "##!+ s\n(?i)foo\n", "##!+ i\n(?s)a.b\n", "##!+ s\n(?i:ab|c.)\n", "(?i)ab|c\n", "##!+ s\n(?is)x.y\n", "##!+ i\n##!^ (?s)\nfoo.\nbar\n", "##!+ s\n##!$ (?i:end)\n(?i)x\n",
+				"(item\\(?s) .+\n", "##!+ i\n##!^ ^\n##!$ $\n(arg\\(?s)=.*\nx\n", "(a\\(?i)|b).\n", "x|(y\\(?s)z).\n", "(q\\(?i:r)).$\n", "\\.aspx(?i:handler).+\n", "\\.abcd(?s:.)x.\n", "\\.a(?s:.)y.\nz\n", "\\.ab(?s:.)x.(?i:k)\n",
 				"##!+ i\n(?P<scheme>https?)://x\n", "##!+ is\n(?P<Name>a.b)|c\n", "(?P<n>x)y\n", "##!+ i\nfoo(?P<A>BAR)\n", "##!+ s\n(?P<dot>.)(?P<Rest>[A-Z]+)\n", "##!+ i\n##!^ (?P<Pre>p)\nfoo\nbar\n"} {
 				cs = append(cs, &c02Case{Main: m, Lane: "whole-expression-flag-groups-and-named-groups", Update: true})
 			}
